@@ -187,6 +187,43 @@ theorem C18_modes_cut_roundtrip (t : Int) (m : Mode) (hnn : NonNeg m.segs) (b a 
       omega
     · rw [c2 x (by omega), c3 x (by omega)]; omega
 
+/-- `Sum` does not depend on the order of its argument lists — not only as a step function: it returns the
+very same segment list (exact magnitudes; in float32 below the bound of `C18_sum_float`). -/
+theorem C18_sum_argument_order (ls ls' : List (List Seg)) (h : ls.Perm ls') : sum ls = sum ls' := by
+  unfold sum
+  rw [anyInfinite_perm h]
+  apply sumEdges_order_irrelevant
+  · exact ((sortEdges_perm _).trans (rawEdges_perm h)).trans (sortEdges_perm _).symm
+  · exact sortEdges_sorted _
+  · exact sortEdges_sorted _
+
+/-- `modepb.Sum` does not depend on the order of its arguments either: the same mode, segment for segment. -/
+theorem C18_modes_sum_argument_order (ms ms' : List Mode) (h : ms.Perm ms') : modeSum ms = modeSum ms' := by
+  cases ms with
+  | nil => rw [List.Perm.eq_nil h.symm]
+  | cons m0 r0 =>
+    cases ms' with
+    | nil => exact absurd (List.Perm.eq_nil h) (by simp)
+    | cons m1 r1 =>
+      have hs := startsLoop_perm h
+      unfold modeSum
+      simp only []
+      rw [hs]
+      cases hr : startsLoop none none (m1 :: r1) with
+      | mk e l =>
+        cases e with
+        | none =>
+          simp only []
+          rw [C18_sum_argument_order _ _ (h.map (·.segs))]
+        | some e =>
+          cases l with
+          | none =>
+            simp only []
+            rw [C18_sum_argument_order _ _ (h.map (·.segs))]
+          | some l =>
+            simp only []
+            rw [alignLoop_eq_map, alignLoop_eq_map, C18_sum_argument_order _ _ (h.map _)]
+
 /-- Before its start time a mode is not there: `modepb.MagnitudeAt` answers `(0, false)` whatever the first
 segment is, `modepb.ActiveAt` the documented `(t − start, 0)` with a negative elapsed time, the step
 function is `0` (so `MinAt` counts a mode that has not started as `0`), and `modepb.Cut` returns
@@ -268,6 +305,8 @@ theorem C18_sum_leading_idle (ls : List (List Seg)) (h : AllNonNeg ls) (a : Int)
     rfl
 
 /-! Non-vacuity and concrete values: the named corner cases on concrete inputs. -/
+example : sum [[⟨1, some 2⟩, ⟨-2, none⟩], [⟨2, some 3⟩], [⟨0, some 1⟩, ⟨4, some 1⟩]]
+    = sum [[⟨0, some 1⟩, ⟨4, some 1⟩], [⟨1, some 2⟩, ⟨-2, none⟩], [⟨2, some 3⟩]] := by decide
 example : (modeCut 5 ⟨some 2, [⟨1, some 2⟩, ⟨2, some 4⟩, ⟨3, some 1⟩]⟩).before = some ⟨some 2, [⟨1, some 2⟩, ⟨2, some 1⟩]⟩ ∧
     (modeCut 5 ⟨some 2, [⟨1, some 2⟩, ⟨2, some 4⟩, ⟨3, some 1⟩]⟩).after = some ⟨some 5, [⟨2, some 3⟩, ⟨3, some 1⟩]⟩ ∧
     modeSum [⟨some 2, [⟨1, some 2⟩, ⟨2, some 1⟩]⟩, ⟨some 5, [⟨2, some 3⟩, ⟨3, some 1⟩]⟩]
